@@ -232,4 +232,4 @@ def run(ctx):
     from ..common import run_systematic
 
     run_systematic(ctx, divmod_cases(), guarded(ctx, check_case), keep_one_in=12 if ctx.tier == "quick" else 1, label="systematic-divmod")
-    run_cases(ctx, case_strategy(), guarded(ctx, check_case), ctx.budget(2400, 100000))
+    run_cases(ctx, case_strategy(), guarded(ctx, check_case), ctx.budget(2400, 40000))
